@@ -46,11 +46,13 @@ CLAIMED.update({
             'Structural whole: overload set, operator algebra against the mathematical table, erase-remove idiom, non-member = member normal forms.',
             'Trusts the standard algorithms std::equal / lexicographical_compare(_three_way) / remove(_if).',
             'DESIGN.md section 6 C16'),
-    'C08': ('other', 'clang AST plugin: constant-evaluation hygiene (reachability under is_constant_evaluated) and paired inline->heap substitution',
+    'C08': ('other', 'clang AST plugin: constant-evaluation hygiene (reachability under is_constant_evaluated) and paired inline->heap substitution; '
+                     'operation laws over the LLVM IR flavour that contains the constant-evaluation arms',
             'Two necessary structural clauses: no non-constant construct (memcpy/memmove, placement new, void* casts, reinterpret_cast, '
             'non-constexpr callee) is reachable from the public API when std::is_constant_evaluated() is true; every allocation made only '
             'under the guard is committed with the count it was allocated with, and heap_temporary releases what it allocated. '
-            'Equality of evaluator and run-time results is not decided (asking the evaluator would be execution).',
+            'R08.3: the arms taken under constant evaluation obey the same operation laws (size, returned position, element placement, copy '
+            'direction) as the run-time arms, decided on IR without evaluating anything; equality of stored VALUES is not decided.',
             'Trusts clang 14 AST of the instantiated templates; std:: bodies are leaves judged by their constexpr specifier; C++20/2b with std::allocator and literal element types.',
             'DESIGN.md section 6 C08'),
     'C12': ('other', 'allocation-size provenance and guard entailment along IR paths; narrowing-conversion guard rule',
